@@ -53,7 +53,9 @@ def load_hdr(ffi: cffi.FFI, hdr_path: str) -> None:
 
 def create_ffibuilder(**kwargs: Any) -> cffi.FFI:
     ffibuilder = cffi.FFI()
-    ffibuilder.cdef("typedef uint32_t dev_t;")
+    # dev_t is a 64-bit type on Linux (glibc and musl, 32-bit architectures
+    # included), and that is how pathrs_inroot_mknod() takes it.
+    ffibuilder.cdef("typedef uint64_t dev_t;")
 
     # We need to use cdef to tell cffi what functions we need to FFI to. But we
     # don't need the structs (I hope).
